@@ -18,5 +18,6 @@ CONSTANTS
   Coarse = FALSE
   MutPrecedence = FALSE
   MutNoCatch = TRUE
+  MutKilledEscapes = FALSE
   KilledMayRaise = FALSE
 INVARIANTS OrderIndependence
